@@ -29,3 +29,11 @@ def prefixed_instruction_operands_dropped(case, deviation):
         return False
     # the word went through the operand normaliser like an operand: `(bad)` has the shape (a) and comes out as [bad]
     return all(g == p_ or (p_.startswith("(") and p_.endswith(")") and g == "[" + p_[1:-1] + "]") for g, p_ in zip(got, pieces))
+
+
+def non_utf8_symbol_name_decode_error(case, deviation):
+    """F24: a listing whose only non-UTF-8 bytes sit in a symbol name (label line / <name+off> annotation, where objdump prints ELF
+    symbol names byte for byte) is rejected as a whole with UnicodeDecodeError.  Only that exception on C08's substituted-name
+    listing is covered; a stream that differs from the one of the untouched listing, or any other failure, is a new violation."""
+    err = deviation.get("error") or []
+    return deviation.get("kind") == "fails-on-non-utf8-symbol-name" and len(err) >= 1 and err[0] == "UnicodeDecodeError"
